@@ -17,7 +17,7 @@ func c10Cfg() *DeclCfg {
 		PPos: 70, PosMax: 5, PRest: 50, PExec: 30, PByTag: 50, PSubOptional: 60, PAliases: 20,
 		ParserOpts: []flags.Options{0, flags.PassDoubleDash, flags.PassDoubleDash, flags.HelpFlag | flags.PassDoubleDash, flags.PassAfterNonOption, flags.PassDoubleDash | flags.IgnoreUnknown, flags.PassDoubleDash | flags.PassAfterNonOption, flags.PassDoubleDash | flags.PassAfterNonOption | flags.HelpFlag},
 		PosTypes:   []TypeSpec{{K: KString}, {K: KString}, {K: KInt}, {K: KFloat64}, {K: KDuration}, {K: KCelsius}, {K: KUint8}, {K: KPoint}, {K: KInt, W: WMap, MapKey: KString}, {K: KString, W: WMap, MapKey: KString}},
-		PNamedRest: 35, PPosSplit: 30, PPosLongTag: 10,
+		PNamedRest: 35, PPosSplit: 30, PPosLongTag: 10, PReqViaAPI: 25,
 	}
 }
 
@@ -54,6 +54,22 @@ func c10Run(c *Ctx) {
 	if sc.NeedsCommand() {
 		c.Unspec("vector ends where a sub-command is still required")
 		return
+	}
+	if c.K%3 == 1 {
+		// a program that renders its own usage text reads Command.Args() and sorts / filters what it got: the list
+		// it is handed is its own, the declaration order the parser binds by is not affected
+		for _, cm := range d.Cmds {
+			if cm.FC == nil {
+				continue
+			}
+			got := cm.FC.Args()
+			for i, j := 0, len(got)-1; i < j; i, j = i+1, j-1 {
+				got[i], got[j] = got[j], got[i]
+			}
+			if len(got) > 1 {
+				got = append(got[:0], got[1:]...)
+			}
+		}
 	}
 	o := RunParse(b, args)
 	c.Count("parses", 1)
